@@ -244,11 +244,15 @@ def run_case(case: dict, st=None) -> Tuple[List[dict], str]:
             outdir = os.path.join(st["tmp"], f"out_{os.getpid()}")
             shutil.rmtree(outdir, ignore_errors=True)
             argv += ["--output-to", "--output-dir", outdir]
+        if case.get("nds") is not None:
+            argv += ["--nth-data-set"] + [str(i) for i in case["nds"]]
         out, exc = run_cli(argv, st)
         # expected through the API
         from pyimpspec import DataSet
 
         exp_sets = list(dsets)
+        if case.get("nds") is not None:   # zero-based indices of the data sets of the file to include, all others ignored
+            exp_sets = [d for i, d in enumerate(exp_sets) if i in case["nds"]]
         try:
             if case.get("average"):
                 exp_sets = [DataSet.average(exp_sets)]
@@ -429,6 +433,8 @@ def cases(thorough: bool) -> List[dict]:
         out.append({"cmd": "parse", "input": inp, "fmt": fmt, "filters": {"hpf": 1.0}, "to_file": True})
     for fmt, flt in itertools.product(("csv", "md"), (FILTERS[0], FILTERS[3])):
         out.append({"cmd": "parse", "input": {"kind": "file", "file": "mpt2"}, "fmt": fmt, "filters": flt, "average": True})
+    for fmt, nds in itertools.product(("csv", "json"), ([0], [1], [0, 1], [1, 0])):   # selection of spectra of a file with several
+        out.append({"cmd": "parse", "input": {"kind": "file", "file": "mpt2"}, "fmt": fmt, "filters": {}, "nds": nds})
     for cdc, (fmin, fmax), npd, plot in itertools.product(SIM_CDCS, ((0.1, 1e4), (2.5, 3.3e5)), (1, 7) if not thorough else (1, 3, 7, 10), ("nyquist", "bode")):
         out.append({"cmd": "simulate", "cdc": cdc, "fmin": fmin, "fmax": fmax, "npd": npd, "plot": plot})
     for (start, truth), (m, w), refine, running, fmt in itertools.product(FIT_CASES, (("leastsq", "boukamp"), ("powell", "modulus")) if not thorough else
